@@ -66,6 +66,10 @@ def solo_clones(especs, only=None):
             c.id = '%s_solo_%s' % (e.id, d.lower())
             c.name = '%sSolo%s' % (e.name, d)
             c.derives = [d]
+            if d != 'EnumDiscriminants':
+                # helper attributes of a derive that is no longer requested
+                c.extra['enum_attrs'] = [a for a in c.extra.get('enum_attrs', []) if 'strum_discriminants' not in a]
+                c.extra['variant_attrs'] = {k: [a for a in v if 'strum_discriminants' not in a] for k, v in c.extra.get('variant_attrs', {}).items()}
             c.extra['from'] = e.extra.get('from')
             c.extra['shape'] = 'solo %s of %s' % (d, e.extra.get('shape', e.id))
             out.append(c)
